@@ -303,6 +303,8 @@ func (env *Env) c20Delay(fn *ssa.Function, after *ssa.Call, lp *flow.Loop, g *fl
 		case bo.Op == token.MUL:
 			if c, ok := bo.Y.(*ssa.Const); ok && c.Value != nil && c.Value.ExactString() == "2" {
 				carried, _ = bo.X.(*ssa.Phi)
+			} else if c, ok := bo.X.(*ssa.Const); ok && c.Value != nil && c.Value.ExactString() == "2" {
+				carried, _ = bo.Y.(*ssa.Phi)
 			}
 		case bo.Op == token.SHL:
 			if c, ok := bo.Y.(*ssa.Const); ok && c.Value != nil && c.Value.ExactString() == "1" {
